@@ -21,6 +21,9 @@ var domains = map[string]struct {
 	mod string
 }{}
 
+// generators print a coq/Gen/*.v file to stdout (regenerated from /repo on every run)
+var generators = map[string]func(){"consts": emitConsts}
+
 func register(name, mod string, f domain) {
 	domains[name] = struct {
 		f   domain
@@ -35,8 +38,8 @@ func main() {
 	}
 	cmd := os.Args[1]
 	logrus.SetOutput(io.Discard)
-	if cmd == "consts" {
-		emitConsts()
+	if g, ok := generators[cmd]; ok {
+		g()
 		return
 	}
 	d, ok := domains[cmd]
